@@ -94,7 +94,7 @@ def run_bn(ns, c):
     for ev in range(c["n_events"]):
         r = rng.random()
         if c.get("long"):
-            r = 0.9 if ev % 400 != 399 else (0.2 if training else 0.1)      # training forwards; an eval excursion every 400 events
+            r = {397: 0.2, 399: 0.1}.get(ev % 400, 0.9)      # training forwards; every 400 events a short excursion: eval(), one eval forward, train()
         if r < 0.15:
             m.train(); kinds.append("train"); events.append("train()")
             switches += int(not training); training = True
